@@ -234,6 +234,9 @@ func (m *Machine) rangeOp(x Val) Val {
 		}
 		return it
 	case Str:
+		if v.IsB {
+			return &Iter{S: v}
+		}
 		if !v.IsC() {
 			m.incon("range over symbolic string")
 		}
@@ -244,6 +247,9 @@ func (m *Machine) rangeOp(x Val) Val {
 }
 
 func (m *Machine) nextOp(x *ssa.Next, it *Iter) Val {
+	if x.IsString && it.S.IsB {
+		return m.nextRuneSym(it)
+	}
 	if x.IsString {
 		if it.Pos >= len(it.S.C) {
 			return Tuple{CB(false), CI(64, 0), CI(32, 0)}
@@ -651,4 +657,54 @@ func (m *Machine) builtin(name string, args []Val, cc *ssa.CallCommon) Val {
 	}
 	m.incon("builtin " + name)
 	return nil
+}
+
+// nextRuneSym: range over a string made of symbolic bytes - UTF-8 decoding by case split
+// (ASCII, 2/3/4-byte sequences with Go's validity rules, otherwise RuneError with width 1).
+func (m *Machine) nextRuneSym(it *Iter) Val {
+	bs := it.S.B
+	p := it.Pos
+	if p >= len(bs) {
+		return Tuple{CB(false), CI(64, 0), CI(32, 0)}
+	}
+	in := func(b Int, lo, hi uint64) Bool {
+		return And(m.intBin(token.GEQ, b, CI(8, lo), false).(Bool), m.intBin(token.LEQ, b, CI(8, hi), false).(Bool))
+	}
+	ext := func(b Int) Int { return m.resize(b, 32, false) }
+	and := func(b Int, k uint64) Int { return m.intBin(token.AND, ext(b), CI(32, k), false).(Int) }
+	shl := func(v Int, k uint64) Int { return m.intBin(token.SHL, v, CI(32, k), false).(Int) }
+	or := func(a, b Int) Int { return m.intBin(token.OR, a, b, false).(Int) }
+	done := func(r Int, w int) Val {
+		it.Pos = p + w
+		return Tuple{CB(true), CI(64, uint64(p)), r}
+	}
+	b0 := bs[p]
+	if m.ex.Branch(m.intBin(token.LSS, b0, CI(8, 0x80), false).(Bool)) {
+		return done(ext(b0), 1)
+	}
+	cont := func(i int) Bool {
+		if p+i >= len(bs) {
+			return CB(false)
+		}
+		return in(bs[p+i], 0x80, 0xBF)
+	}
+	if p+1 < len(bs) && m.ex.Branch(And(in(b0, 0xC2, 0xDF), cont(1))) {
+		return done(or(shl(and(b0, 0x1F), 6), and(bs[p+1], 0x3F)), 2)
+	}
+	if p+2 < len(bs) {
+		b1 := bs[p+1]
+		lead3 := Or(Or(And(in(b0, 0xE1, 0xEC), in(b1, 0x80, 0xBF)), And(in(b0, 0xEE, 0xEF), in(b1, 0x80, 0xBF))),
+			Or(And(in(b0, 0xE0, 0xE0), in(b1, 0xA0, 0xBF)), And(in(b0, 0xED, 0xED), in(b1, 0x80, 0x9F))))
+		if m.ex.Branch(And(lead3, cont(2))) {
+			return done(or(or(shl(and(b0, 0x0F), 12), shl(and(b1, 0x3F), 6)), and(bs[p+2], 0x3F)), 3)
+		}
+	}
+	if p+3 < len(bs) {
+		b1 := bs[p+1]
+		lead4 := Or(And(in(b0, 0xF1, 0xF3), in(b1, 0x80, 0xBF)), Or(And(in(b0, 0xF0, 0xF0), in(b1, 0x90, 0xBF)), And(in(b0, 0xF4, 0xF4), in(b1, 0x80, 0x8F))))
+		if m.ex.Branch(And(And(lead4, cont(2)), cont(3))) {
+			return done(or(or(or(shl(and(b0, 0x07), 18), shl(and(b1, 0x3F), 12)), shl(and(bs[p+2], 0x3F), 6)), and(bs[p+3], 0x3F)), 4)
+		}
+	}
+	return done(CI(32, 0xFFFD), 1)
 }
